@@ -6,11 +6,11 @@ carries fixed delays summing to at least the sum of the largest steps of its com
 a hang, unbounded recursion, a data/time error or any other exception."""
 from . import sched_common as sc
 from .sched_common import COQ_IMPORTS, TRUSTED, run_impl, distribution  # noqa: F401
-from ..coqgen import B, L, N, P
+from ..coqgen import B, C, L, N, P
 from . import c01
 
 ID = "C04"
-COQ_CHECK = "c04_check"
+COQ_CHECK = "c04_check2"
 COQ_MODEL_OBS = None
 RULE = (
     "rings of 2-5 time components (with chords, tails, pass-through adapters and buffering adapters at the source "
@@ -44,15 +44,20 @@ CORPUS = [c01.CORPUS[1], c01.CORPUS[2],
            "end": 10}]
 
 
+COQ_IMPORTS = COQ_IMPORTS.rstrip(".") + " SchedSparse C04Mix."
+
+
 def coq_case(case, obs):
+    if sc.has_push_comp(case):
+        return C("C4Push", sc.coq_case(sc.push_as_pull(case), obs))
     paps = L(B(bool(c.get("pap"))) for c in case["comps"])
-    return P(sc.coq_case(case, obs), paps)
+    return C("C4Std", P(sc.coq_case(case, obs), paps))
 
 
 def coq_obs(case, obs):
     if obs.get("phase") == "connect" and obs.get("outcome") == "CircularCoupling" and obs.get("stuck") is not None:
         return P(L(N(k) for k in obs["stuck"]), "(OOk, [], [])")
-    return P("[]", sc.coq_obs(case, obs))
+    return P("(@nil nat)", sc.coq_obs(case, obs))
 
 
 def shrink_candidates(case):
@@ -131,7 +136,7 @@ def generate(rng, tier):
 
 
 def model_applies(case):
-    return not sc.has_calendar(case) and not sc.has_push_comp(case)
+    return not sc.has_calendar(case)
 
 
 def cycles_of(case):
